@@ -1,6 +1,7 @@
 (* C06 — control request bodies follow the DSP0236 command layouts.  Property theorems only. *)
 Require Import Base Crc Bitfield Headers Encode Decode Process Ops Spec Judge.
 Require Import HeaderForms IanaForm PecFacts EncodeFacts DecodeFacts Hist StepsSimple StepsEncode.
+Require Import Readable.
 Open Scope N_scope.
 
 (* (1) in every well-formed history, every successfully encoded control request has body
@@ -31,3 +32,23 @@ Proof. vm_compute. reflexivity. Qed.
 Print Assumptions C06_oracle_holds_on_model.
 Print Assumptions C06_query_hop_refuted.
 Print Assumptions C06_control_header.
+
+(* ---------- stated directly about an encoder call (no oracle to read) ---------- *)
+(* (4) every successfully encoded control request other than query_hop: between the message-type byte and the PEC
+   lie exactly 0x80, the DSP0236 command code, and the command's parameters *)
+Theorem C06_body_of_every_request : forall ovf g c id a ls w buf out n,
+  wf_cfg g -> cinv g c -> args_okb true id a ls = true ->
+  encode_call ovf c true id a ls = Some w -> w buf = (out, Val (Some n)) ->
+  (1 <=? id) && (id <=? 17) = true -> id <> 15 ->
+  exists code params, spec_request id a ls = Some (code, params) /\ sub out 9 (n - 10) = [128; code] ++ params.
+Proof. exact body_of_every_request. Qed.
+
+(* (5) query_hop: command code 0x0E (known finding 601; DSP0236 says 0x0F), the rest as specified *)
+Theorem C06_query_hop_body : forall ovf g c a ls w buf out n,
+  wf_cfg g -> cinv g c -> args_okb true 15 a ls = true ->
+  encode_call ovf c true 15 a ls = Some w -> w buf = (out, Val (Some n)) ->
+  sub out 9 (n - 10) = [128; 14; arg a 1; arg a 2].
+Proof. exact query_hop_body. Qed.
+
+Print Assumptions C06_body_of_every_request.
+Print Assumptions C06_query_hop_body.
